@@ -1,9 +1,4 @@
 ---- MODULE Gen_diamond ----
-EXTENDS Gen
-mcOrd == <<"a", "b", "p", "q", "z">>
-mcMenu == << << Rl(<<"p">>, <<"a">>, "copy", "c1"), Rl(<<"q">>, <<"b">>, "copy", "c2"), Rl(<<"z">>, <<"p", "q">>, "fn", "c3") >> >>
-mcInit == << <<"a", "S0">>, <<"b", "S0">> >>
-mcScriptBCB == << <<"build", "">>, <<"clean", "">>, <<"build", "">> >>
-mcScriptEdit == << <<"build", "">>, <<"edit", "a", "S1">>, <<"build", "">>, <<"edit", "a", "S0">>, <<"build", "">> >>
+EXTENDS Gen, MC_diamond
 mcScriptTamper == << <<"build", "">>, <<"edit", "p", "J">>, <<"del", "q">>, <<"build", "">> >>
 ====
